@@ -213,7 +213,8 @@ impl FloatEncoding for f32 {
         let mut mantissa = mantissa.unsigned_abs();
 
         let zeros = mantissa.leading_zeros();
-        let top_bit = (u32::BITS - zeros) as i16 + exponent;
+        // widened: an exponent close to i16::MAX must not overflow the sum
+        let top_bit = (u32::BITS - zeros) as i32 + exponent as i32;
 
         if top_bit > 128 {
             // overflow
@@ -222,8 +223,9 @@ impl FloatEncoding for f32 {
             } else {
                 Inexact(f32::NEG_INFINITY, Sign::Negative)
             };
-        } else if top_bit < -125 - 23 {
-            // underflow
+        } else if top_bit < -126 - 23 {
+            // underflow: below half of the least subnormal 2^-149
+            // (values in [2^-150, 2^-149) still round to 0 or 2^-149 in the branch below)
             return if sign == 0 {
                 Inexact(0f32, Sign::Negative)
             } else {
@@ -243,9 +245,14 @@ impl FloatEncoding for f32 {
                 round_bits = 0; // not rounding is required
                 mantissa <<= shift as u32;
             } else {
-                let shifted = mantissa << (30 + shift) as u32;
-                round_bits = (shifted >> 28 & 0b110) as u8 | ((shifted & 0xfffffff) != 0) as u8;
-                mantissa >>= (-shift) as u32;
+                // keep two extra bits below the ulp in a wider integer (the shift can be as
+                // large as the mantissa width); everything below them is sticky
+                let k = (-shift) as u32;
+                let wide = (mantissa as u64) << 2;
+                let q = wide >> k;
+                let sticky = (q & 1) != 0 || (wide & ((1u64 << k) - 1)) != 0;
+                round_bits = (q & 0b110) as u8 | sticky as u8;
+                mantissa = (q >> 2) as u32;
             }
 
             // then compose the bit representation of f32
@@ -266,7 +273,8 @@ impl FloatEncoding for f32 {
             bits = (sign << 31) | (exponent << 23) | (mantissa >> 9);
 
             // get the low bit of mantissa and two extra bits, and adding round-to-even adjustment
-            round_bits = ((mantissa >> 7) & 0b110) as u8 | ((mantissa & 0x7f) != 0) as u8;
+            // (bits 8 and 9 are the round bit and the last kept bit, bits 0..=7 are sticky)
+            round_bits = ((mantissa >> 7) & 0b110) as u8 | ((mantissa & 0xff) != 0) as u8;
         };
 
         if round_bits & 0b11 == 0 {
@@ -334,7 +342,8 @@ impl FloatEncoding for f64 {
         let mut mantissa = mantissa.unsigned_abs();
 
         let zeros = mantissa.leading_zeros();
-        let top_bit = (u64::BITS - zeros) as i16 + exponent;
+        // widened: an exponent close to i16::MAX must not overflow the sum
+        let top_bit = (u64::BITS - zeros) as i32 + exponent as i32;
 
         if top_bit > 1024 {
             // overflow
@@ -364,10 +373,14 @@ impl FloatEncoding for f64 {
                 round_bits = 0; // not rounding is required
                 mantissa <<= shift as u32;
             } else {
-                let shifted = mantissa << (62 + shift) as u64;
-                round_bits =
-                    (shifted >> 60 & 0b110) as u8 | ((shifted & 0xfffffffffffffff) != 0) as u8;
-                mantissa >>= (-shift) as u32;
+                // keep two extra bits below the ulp in a wider integer (the shift can be as
+                // large as the mantissa width); everything below them is sticky
+                let k = (-shift) as u32;
+                let wide = (mantissa as u128) << 2;
+                let q = wide >> k;
+                let sticky = (q & 1) != 0 || (wide & ((1u128 << k) - 1)) != 0;
+                round_bits = (q & 0b110) as u8 | sticky as u8;
+                mantissa = (q >> 2) as u64;
             }
 
             // then compose the bit representation of f64
@@ -388,7 +401,8 @@ impl FloatEncoding for f64 {
             bits = (sign << 63) | (exponent << 52) | (mantissa >> 12);
 
             // get the low bit of mantissa and two extra bits, and adding round-to-even adjustment
-            round_bits = ((mantissa >> 10) & 0b110) as u8 | ((mantissa & 0x3ff) != 0) as u8;
+            // (bits 11 and 12 are the round bit and the last kept bit, bits 0..=10 are sticky)
+            round_bits = ((mantissa >> 10) & 0b110) as u8 | ((mantissa & 0x7ff) != 0) as u8;
         };
 
         if round_bits & 0b11 == 0 {
